@@ -68,6 +68,9 @@ func mutateReq(r *R, q Req, other []Req) Req {
 	n := r.Range(1, 2)
 	for i := 0; i < n; i++ {
 		k := pick(r, names)
+		if t, ok := dict.tokens.pick(r, 0.12); ok {
+			k = http.CanonicalHeaderKey(t) // a literal of the tree under test as a request-header name
+		}
 		switch r.Intn(5) {
 		case 0:
 			q = q.without(k)
@@ -84,6 +87,12 @@ func mutateReq(r *R, q Req, other []Req) Req {
 				"Sec-Fetch-Mode": {"no-cors", "cors", "navigate"}, "Sec-Fetch-Site": {"cross-site", "same-origin"}, "Referer": {"https://example.com/"},
 				"Authorization": {"Bearer x"}, "Content-Type": {"application/json", "text/plain"}, "Access-Control-Request-Local-Network": {"true"},
 				"X-Forwarded-For": {"10.0.0.1"}, "Accept": {"*/*"}, "User-Agent": {"curl/8"}, "Access-Control-Request-Credentials": {"true"}}[k]
+			if len(vals) == 0 { // a mined name: the values an Origin may have are the interesting ones
+				vals = []string{"https://evil.test", "https://example.com", "1", "true"}
+				if o, ok := pick(r, other).get(hOrigin); ok && len(o) > 0 {
+					vals = append(vals, o[0], o[0])
+				}
+			}
 			v := pick(r, vals)
 			if dv, ok := dict.any.pick(r, 0.15); ok {
 				v = dv // a literal of the tree under test
